@@ -699,7 +699,14 @@ func (api *API) RecalculateCaches(ctx context.Context) error {
 
 // ClusterMessage is for internal use. It decodes a protobuf message out of
 // the body and forwards it to the BroadcastHandler.
-func (api *API) ClusterMessage(ctx context.Context, reqBody io.Reader) error {
+func (api *API) ClusterMessage(ctx context.Context, reqBody io.Reader) (err error) {
+	// called by the gossip delegate for every datagram: a message this node
+	// cannot digest is an error to log, not a reason to end the process
+	defer func() {
+		if r := recover(); r != nil {
+			err = fmt.Errorf("cluster message: %v", r)
+		}
+	}()
 	span, _ := tracing.StartSpanFromContext(ctx, "API.ClusterMessage")
 	defer span.Finish()
 
@@ -713,6 +720,9 @@ func (api *API) ClusterMessage(ctx context.Context, reqBody io.Reader) error {
 		return errors.Wrap(err, "reading body")
 	}
 
+	if len(body) == 0 {
+		return errors.New("empty cluster message")
+	}
 	typ := body[0]
 	msg := getMessage(typ)
 	err = api.server.serializer.Unmarshal(body[1:], msg)
